@@ -29,11 +29,11 @@ type Step struct {
 
 // Case: programs with argument tuples and a history of operations on ONE generator.
 type Case struct {
-	Progs  []lang.Program  `json:"progs"`
-	Texts  []string        `json:"texts"`
+	Progs  []lang.Program   `json:"progs"`
+	Texts  []string         `json:"texts"`
 	Tuples [][][]*lang.Expr `json:"tuples"` // per program: tuples of argument literals
-	Steps  []Step          `json:"steps"`
-	Opt    bool            `json:"optimizer"`
+	Steps  []Step           `json:"steps"`
+	Opt    bool             `json:"optimizer"`
 	// ReuseArgs: the host builds the argument values of a tuple once and passes the very
 	// same value objects to every evaluation with that tuple (values are immutable)
 	ReuseArgs bool `json:"reuse_args,omitempty"`
